@@ -64,6 +64,49 @@ where
         }
     }
 
+    // ---------------------------------------------------------------------------------------
+    // Discipline of this model: the backing array is only ever accessed with indices that are
+    // CONSTANT after loop unwinding (loop counters running over 0..CAP); a symbolic position is
+    // compared against the counter. A symbolic index into an array of structs makes CBMC emit
+    // byte-extract/byte-update barrel shifters over the whole object (measured: 2.1 M SAT
+    // variables for one insert), a guarded constant-index access does not.
+    // ---------------------------------------------------------------------------------------
+
+    /// Reference to the element at (possibly symbolic) position `idx`.
+    fn at(&self, idx: usize) -> &A::Item {
+        let mut i = 0;
+        while i < CAP {
+            if i == idx {
+                return &self.buf[i];
+            }
+            i += 1;
+        }
+        panic!("smallvec model: index out of bounds");
+    }
+
+    fn at_mut(&mut self, idx: usize) -> &mut A::Item {
+        let mut i = 0;
+        while i < CAP {
+            if i == idx {
+                return &mut self.buf[i];
+            }
+            i += 1;
+        }
+        panic!("smallvec model: index out of bounds");
+    }
+
+    fn set(&mut self, idx: usize, value: A::Item) {
+        let mut i = 0;
+        while i < CAP {
+            if i == idx {
+                self.buf[i] = value;
+                return;
+            }
+            i += 1;
+        }
+        panic!("smallvec model: index out of bounds");
+    }
+
     pub fn len(&self) -> usize {
         self.len
     }
@@ -74,7 +117,8 @@ where
 
     pub fn push(&mut self, value: A::Item) {
         assert!(self.len < CAP, "smallvec model capacity exceeded");
-        self.buf[self.len] = value;
+        let l = self.len;
+        self.set(l, value);
         self.len += 1;
     }
 
@@ -83,31 +127,37 @@ where
             return None;
         }
         self.len -= 1;
-        Some(std::mem::replace(&mut self.buf[self.len], A::Item::filler()))
+        let l = self.len;
+        Some(std::mem::replace(self.at_mut(l), A::Item::filler()))
     }
 
     pub fn insert(&mut self, index: usize, value: A::Item) {
         assert!(index <= self.len, "insertion index out of bounds");
         assert!(self.len < CAP, "smallvec model capacity exceeded");
-        let mut i = self.len;
-        while i > index {
-            self.buf[i] = self.buf[i - 1].clone();
+        let mut i = CAP - 1;
+        while i > 0 {
+            if i > index && i <= self.len {
+                self.buf[i] = self.buf[i - 1].clone();
+            }
             i -= 1;
         }
-        self.buf[index] = value;
+        self.set(index, value);
         self.len += 1;
     }
 
     pub fn remove(&mut self, index: usize) -> A::Item {
         assert!(index < self.len, "removal index out of bounds");
-        let out = self.buf[index].clone();
-        let mut i = index;
-        while i + 1 < self.len {
-            self.buf[i] = self.buf[i + 1].clone();
+        let out = self.at(index).clone();
+        let mut i = 0;
+        while i + 1 < CAP {
+            if i >= index && i + 1 < self.len {
+                self.buf[i] = self.buf[i + 1].clone();
+            }
             i += 1;
         }
         self.len -= 1;
-        self.buf[self.len] = A::Item::filler();
+        let l = self.len;
+        self.set(l, A::Item::filler());
         out
     }
 
@@ -122,24 +172,66 @@ where
         assert!(end < self.len, "drain: end out of bounds");
         let count = end + 1 - start;
         let mut removed = SmallVec::<A>::new();
-        let mut i = start;
-        while i <= end {
-            removed.push(self.buf[i].clone());
-            i += 1;
+        // removed[k - start] = buf[k] for start <= k <= end
+        let mut k = 0;
+        while k < CAP {
+            if k >= start && k <= end {
+                removed.push(self.buf[k].clone());
+            }
+            k += 1;
         }
-        let mut j = start;
-        while j + count < self.len {
-            self.buf[j] = self.buf[j + count].clone();
+        // shift the tail down by `count`: buf[j] = buf[j + count]
+        let old_len = self.len;
+        let mut j = 0;
+        while j < CAP {
+            if j >= start && j + count < old_len {
+                let mut src = j + 1;
+                while src < CAP {
+                    if src == j + count {
+                        self.buf[j] = self.buf[src].clone();
+                    }
+                    src += 1;
+                }
+            }
             j += 1;
         }
-        let new_len = self.len - count;
-        let mut k = new_len;
-        while k < self.len {
-            self.buf[k] = A::Item::filler();
-            k += 1;
+        let new_len = old_len - count;
+        let mut z = 0;
+        while z < CAP {
+            if z >= new_len && z < old_len {
+                self.buf[z] = A::Item::filler();
+            }
+            z += 1;
         }
         self.len = new_len;
         Drain { items: removed, pos: 0 }
+    }
+
+    /// Index-based iterator (shadows `<[T]>::iter` reached through `Deref`): the slice
+    /// iterator is a pair of raw pointers, which is far more expensive for CBMC than an index.
+    pub fn iter(&self) -> Iter<'_, A> {
+        Iter { v: self, pos: 0, end: self.len }
+    }
+
+    pub fn first(&self) -> Option<&A::Item> {
+        if self.len == 0 { None } else { Some(&self.buf[0]) }
+    }
+
+    pub fn last(&self) -> Option<&A::Item> {
+        if self.len == 0 { None } else { Some(self.at(self.len - 1)) }
+    }
+
+    pub fn first_mut(&mut self) -> Option<&mut A::Item> {
+        if self.len == 0 { None } else { Some(&mut self.buf[0]) }
+    }
+
+    pub fn last_mut(&mut self) -> Option<&mut A::Item> {
+        if self.len == 0 {
+            None
+        } else {
+            let i = self.len - 1;
+            Some(self.at_mut(i))
+        }
     }
 
     pub fn as_slice(&self) -> &[A::Item] {
@@ -151,10 +243,90 @@ where
     }
 
     pub fn clear(&mut self) {
-        while self.len > 0 {
-            self.len -= 1;
-            self.buf[self.len] = A::Item::filler();
+        let mut i = 0;
+        while i < CAP {
+            if i < self.len {
+                self.buf[i] = A::Item::filler();
+            }
+            i += 1;
         }
+        self.len = 0;
+    }
+}
+
+pub struct Iter<'a, A: Array>
+where
+    A::Item: Filler + Clone,
+{
+    v: &'a SmallVec<A>,
+    pos: usize,
+    end: usize,
+}
+
+impl<'a, A: Array> Iterator for Iter<'a, A>
+where
+    A::Item: Filler + Clone,
+{
+    type Item = &'a A::Item;
+    fn next(&mut self) -> Option<&'a A::Item> {
+        if self.pos < self.end {
+            let i = self.pos;
+            self.pos += 1;
+            Some(self.v.at(i))
+        } else {
+            None
+        }
+    }
+    fn size_hint(&self) -> (usize, Option<usize>) {
+        let n = self.end - self.pos;
+        (n, Some(n))
+    }
+}
+
+impl<'a, A: Array> DoubleEndedIterator for Iter<'a, A>
+where
+    A::Item: Filler + Clone,
+{
+    fn next_back(&mut self) -> Option<&'a A::Item> {
+        if self.pos < self.end {
+            self.end -= 1;
+            Some(self.v.at(self.end))
+        } else {
+            None
+        }
+    }
+}
+
+impl<'a, A: Array> ExactSizeIterator for Iter<'a, A> where A::Item: Filler + Clone {}
+
+impl<A: Array> std::ops::Index<usize> for SmallVec<A>
+where
+    A::Item: Filler + Clone,
+{
+    type Output = A::Item;
+    fn index(&self, i: usize) -> &A::Item {
+        assert!(i < self.len, "index out of bounds");
+        self.at(i)
+    }
+}
+
+impl<A: Array> std::ops::IndexMut<usize> for SmallVec<A>
+where
+    A::Item: Filler + Clone,
+{
+    fn index_mut(&mut self, i: usize) -> &mut A::Item {
+        assert!(i < self.len, "index out of bounds");
+        self.at_mut(i)
+    }
+}
+
+impl<A: Array> std::ops::Index<std::ops::RangeFull> for SmallVec<A>
+where
+    A::Item: Filler + Clone,
+{
+    type Output = [A::Item];
+    fn index(&self, _: std::ops::RangeFull) -> &[A::Item] {
+        self.as_slice()
     }
 }
 
@@ -173,7 +345,7 @@ where
     type Item = A::Item;
     fn next(&mut self) -> Option<A::Item> {
         if self.pos < self.items.len {
-            let v = self.items.buf[self.pos].clone();
+            let v = self.items.at(self.pos).clone();
             self.pos += 1;
             Some(v)
         } else {
@@ -198,8 +370,10 @@ where
     fn clone(&self) -> Self {
         let mut out = Self::new();
         let mut i = 0;
-        while i < self.len {
-            out.buf[i] = self.buf[i].clone();
+        while i < CAP {
+            if i < self.len {
+                out.buf[i] = self.buf[i].clone();
+            }
             i += 1;
         }
         out.len = self.len;
@@ -216,8 +390,8 @@ where
             return false;
         }
         let mut i = 0;
-        while i < self.len {
-            if self.buf[i] != other.buf[i] {
+        while i < CAP {
+            if i < self.len && self.buf[i] != other.buf[i] {
                 return false;
             }
             i += 1;
@@ -272,9 +446,9 @@ where
     A::Item: Filler + Clone,
 {
     type Item = &'a A::Item;
-    type IntoIter = std::slice::Iter<'a, A::Item>;
+    type IntoIter = Iter<'a, A>;
     fn into_iter(self) -> Self::IntoIter {
-        self.as_slice().iter()
+        self.iter()
     }
 }
 
@@ -293,7 +467,7 @@ where
     type Item = A::Item;
     fn next(&mut self) -> Option<A::Item> {
         if self.pos < self.items.len {
-            let v = self.items.buf[self.pos].clone();
+            let v = self.items.at(self.pos).clone();
             self.pos += 1;
             Some(v)
         } else {
